@@ -877,7 +877,7 @@ func TestVerifC11CPUEvict(t *testing.T) {
 		metriccache.DefaultAggregateResultFactory = oldFactory
 		_ = features.DefaultMutableKoordletFeatureGate.SetFromMap(oldGates)
 	}()
-	kit.Run(t, kit.Config{Property: "C11", Unit: "cpu-e2e", Quick: 12000, Thorough: 200000,
+	kit.Run(t, kit.Config{Property: "C11", Unit: "cpu-e2e", Quick: 12000, Thorough: 800000,
 		Rule: "cpuEvict() end to end: 2-12 pods (koord-batch/mid/free/prod and out-of-band priorities, QoS, eviction-enabled label, eviction-priority and eviction-policy annotations incl. malformed, sub-priority label, phases, 1-2 containers, cpu sample present/absent/zero/sub-milli), node cores and batch/mid-cpu allocatable around the pods' requests, usage thresholds 30-92% with node usage below/at/above the line, BE satisfaction config with node BE usage/request/limit metrics (avg and last, enough or too few samples, both evict policies), every non-empty subset of {BECPUEvict, CPUAllocatableEvict, CPUEvict}; executor script none / all fail / first only / every k-th / random, 0-100% already evicted; distinct = (features enabled, features with a target, attempts class, failures, already-evicted counted, met/unmet); non-trivial = at least one Evict attempt",
 	}, func(c *kit.Case) {
 		r := c.R
